@@ -28,6 +28,8 @@ import (
 	"go.opentelemetry.io/collector/pdata/ptrace"
 	"go.opentelemetry.io/collector/processor"
 	"go.opentelemetry.io/collector/processor/processortest"
+	sdktrace "go.opentelemetry.io/otel/sdk/trace"
+	"go.opentelemetry.io/otel/sdk/trace/tracetest"
 	"go.opentelemetry.io/otel/trace"
 )
 
@@ -76,6 +78,7 @@ type exportRec struct {
 	Flat      []FlatItem
 	Err       error
 	Data      any
+	SpanID    string // span id of the context the export ran under
 }
 
 type sink struct {
@@ -102,7 +105,7 @@ func (s *sink) consume(ctx context.Context, data any, forest func(*Interner) []*
 		s.maxIn = cur
 	}
 	k := len(s.exports)
-	rec := &exportRec{K: k, Begin: atomic.AddInt64(s.seq, 1), BeginT: time.Since(s.startTime), Label: ctx.Value(cbp.VerifCtxKey{}), CtxErrIn: ctx.Err(), Data: data}
+	rec := &exportRec{K: k, Begin: atomic.AddInt64(s.seq, 1), BeginT: time.Since(s.startTime), Label: ctx.Value(cbp.VerifCtxKey{}), CtxErrIn: ctx.Err(), Data: data, SpanID: trace.SpanContextFromContext(ctx).SpanID().String()}
 	rec.Forest = forest(s.in)
 	rec.Flat = Flatten(rec.Forest)
 	md := client.FromContext(ctx).Metadata
@@ -164,6 +167,9 @@ type runPlan struct {
 	Seed  uint64     `json:"gen_seed"`
 	// SharedSpan: every caller context derives from one traced parent (same span, distinct contexts)
 	SharedSpan bool `json:"shared_span"`
+	// CtxSpans: three out of four caller contexts carry their own (remote / non-recording) span, and the processor gets a real
+	// tracer provider whose export spans are recorded with their links
+	CtxSpans bool `json:"ctx_spans,omitempty"`
 	// Trickle: one caller sends small requests spaced below the timeout for many timeouts
 	Trickle bool `json:"trickle"`
 	// ShutdownAfterUs: with Shutdown == "midstream", how long after the callers started Shutdown is called
@@ -244,6 +250,19 @@ func genPlan(r *Rng, focus string) *runPlan {
 		if r.Bool() {
 			c.Shutdown = "buffered"
 		}
+		if r.Chance(45) {
+			// waiting callers whose requests are merged and cut across several exports, a third of them cancelled on the way:
+			// an export goroutine that cannot get rid of an answer keeps its slot and its WaitGroup count
+			c.SendSize = uint32(2 + r.Intn(6))
+			c.MaxSize = c.SendSize + uint32(r.Intn(3))
+			if c.TimeoutMs == 0 {
+				c.TimeoutMs = 8
+			}
+			c.Early = false
+			c.Shutdown = "after"
+			shareCtx = false
+			cancelPct = 35
+		}
 	case "C18":
 		c.SendSize = uint32(2 + r.Intn(6))
 		c.MaxSize = c.SendSize + uint32(r.Intn(3))
@@ -257,6 +276,7 @@ func genPlan(r *Rng, focus string) *runPlan {
 		nCallers = 2 + r.Intn(4)
 		shareCtx = r.Chance(15)
 		cancelPct = 35
+		p.CtxSpans = r.Chance(60)
 	case "C05":
 		if r.Bool() {
 			c.Shutdown = "buffered"
@@ -432,6 +452,15 @@ type runResult struct {
 	startT    time.Duration // just before proc.Start, on the event log's clock
 	jitter    time.Duration // largest overshoot of a 1 ms sleep measured while the run was executing (scheduler load)
 	shutWall  time.Time     // when Shutdown was called
+	spans     []sdktrace.ReadOnlySpan
+}
+
+// spanIDOfLabel: the span a caller context with this label carries (three labels out of four)
+func spanIDOfLabel(l int) (trace.SpanID, bool) {
+	if l%4 == 0 {
+		return trace.SpanID{}, false
+	}
+	return trace.SpanID{0xC1, 0, 0, 1, byte(l >> 24), byte(l >> 16), byte(l >> 8), byte(l)}, true
 }
 
 func comboKey(keys []string, meta map[string][]string) string {
@@ -483,6 +512,11 @@ func execPlan(p *runPlan) *runResult {
 		return res
 	}
 	set := processortest.NewNopSettings(f.Type())
+	var recorder *tracetest.SpanRecorder
+	if p.CtxSpans {
+		recorder = tracetest.NewSpanRecorder()
+		set.TelemetrySettings.TracerProvider = sdktrace.NewTracerProvider(sdktrace.WithSpanProcessor(recorder))
+	}
 	var proc component.Component
 	var consume func(ctx context.Context, rp *reqPlan, g *Gen) error
 	sh := Shape{MaxRes: 2, MaxScopes: 2, MaxItems: 3, MaxMetrics: 2, MinItems: 1}
@@ -594,6 +628,19 @@ func execPlan(p *runPlan) *runResult {
 		base := context.Background()
 		if p.SharedSpan {
 			base = sharedSpanCtx
+		}
+		if rp.Meta != nil {
+			rp.CtxLabel = rp.ID + 1 // a metadata-carrying context is never shared
+		}
+		if sid, ok := spanIDOfLabel(rp.CtxLabel); ok && p.CtxSpans && !p.SharedSpan {
+			// the caller's own span, as a receiver would leave it in the context: a valid span context that is not recording here
+			// (a remote parent; every other one not sampled)
+			flags := trace.FlagsSampled
+			if rp.CtxLabel%2 == 0 {
+				flags = 0
+			}
+			base = trace.ContextWithSpanContext(base, trace.NewSpanContext(trace.SpanContextConfig{
+				TraceID: trace.TraceID{5, 5, 5, 5, 5, 5, 5, 5, sid[0], sid[1], sid[2], sid[3], sid[4], sid[5], sid[6], sid[7]}, SpanID: sid, TraceFlags: flags, Remote: rp.CtxLabel%3 == 0}))
 		}
 		if rp.Meta != nil {
 			base = client.NewContext(base, client.Info{Metadata: client.NewMetadata(rp.Meta)})
@@ -738,6 +785,9 @@ func execPlan(p *runPlan) *runResult {
 	time.Sleep(2 * time.Millisecond)
 	res.gorAfter = runtime.NumGoroutine()
 	res.log = cbp.VerifLog()
+	if recorder != nil {
+		res.spans = recorder.Ended()
+	}
 	return res
 }
 
@@ -773,12 +823,29 @@ func validate(res *runResult, out *Output, run int, stats map[string]int) {
 	// be refused too, not queued on a shard nobody serves, acknowledged, or left hanging
 	if len(p.Cfg.MetaKeys) > 0 && p.Cfg.MetaLimit > 0 {
 		refusedAt := map[string]int64{}
+		tooMany := func(rp *reqPlan) bool {
+			return rp.returned && rp.err != nil && strings.Contains(rp.err.Error(), "too many batcher")
+		}
 		for _, rp := range p.Reqs {
-			if rp.returned && rp.err != nil && strings.Contains(rp.err.Error(), "too many batcher") {
-				k := comboKey(p.Cfg.MetaKeys, rp.Meta)
-				if e, ok := refusedAt[k]; !ok || rp.end < e {
-					refusedAt[k] = rp.end
+			if !tooMany(rp) {
+				continue
+			}
+			k := comboKey(p.Cfg.MetaKeys, rp.Meta)
+			// the limit check comes before the map lookup: a request racing with the admission of its own combination by a
+			// sibling can be refused although the combination is (being) admitted — only a refusal with no such sibling
+			// (no request of the same combination issued before the refusal returned that was not itself refused) shows
+			// that the combination is outside the admitted set
+			sibling := false
+			for _, q := range p.Reqs {
+				if q != rp && !q.skipped && q.start != 0 && q.start < rp.end && !tooMany(q) && comboKey(p.Cfg.MetaKeys, q.Meta) == k {
+					sibling = true
 				}
+			}
+			if sibling {
+				continue
+			}
+			if e, ok := refusedAt[k]; !ok || rp.end < e {
+				refusedAt[k] = rp.end
 			}
 		}
 		for _, rp := range p.Reqs {
@@ -1059,6 +1126,43 @@ func validate(res *runResult, out *Output, run int, stats map[string]int) {
 			stats["single_ctx_exports"]++
 			if !labels[lab] {
 				c.fail("C18", "single-ctx-wrong-parent", fmt.Sprintf("single-context export runs under context %d, contributors %v", lab, labels))
+			}
+		}
+	}
+	// ---- C18 links: the export span of a batch with contributors from several contexts links to the span of every
+	// contributing request (the spans the caller contexts carry are valid but not recording: remote parents, unsampled spans)
+	if res.spans != nil && !p.SharedSpan {
+		linksOf := map[string]map[string]bool{}
+		for _, sp := range res.spans {
+			if sp.Name() != "batch_processor/export" {
+				continue
+			}
+			m := map[string]bool{}
+			for _, l := range sp.Links() {
+				m[l.SpanContext.SpanID().String()] = true
+			}
+			linksOf[sp.SpanContext().SpanID().String()] = m
+		}
+		for _, ex := range sk.exports {
+			ctxLabels := map[int]bool{}
+			for _, it := range ex.Flat {
+				if o, ok := owner[it.ID]; ok {
+					ctxLabels[reqByID[o].CtxLabel] = true
+				}
+			}
+			if len(ctxLabels) < 2 {
+				continue
+			}
+			got, ok := linksOf[ex.SpanID]
+			if !ok {
+				stats["export_span_not_recorded"]++
+				continue
+			}
+			stats["multi_ctx_export_spans_inspected"]++
+			for l := range ctxLabels {
+				if sid, has := spanIDOfLabel(l); has && !got[sid.String()] {
+					c.fail("C18", "contributor-span-not-linked", fmt.Sprintf("export %d carries items of %d request contexts; its export span has no link to the span of context %d (%s; links: %d)", ex.K, len(ctxLabels), l, sid, len(got)))
+				}
 			}
 		}
 	}
@@ -1349,11 +1453,17 @@ func tenantCases(res *runResult, kb, ab *strings.Builder, nk, na *int) {
 	refused := false
 	var admitted []string
 	for _, rp := range p.Reqs {
-		if sh, ok := shardOf[rp.ID]; ok {
+		tooMany := rp.err != nil && strings.Contains(rp.err.Error(), "too many batcher")
+		sh, recvd := shardOf[rp.ID]
+		if recvd {
 			reqs = append(reqs, fmt.Sprintf("(%s, %d)", mdCoq(rp.Meta), sh))
+		}
+		// admitted = passed the admission step: received by a shard, or returned with anything but the limit error (a request
+		// whose context ended between its admission and the hand-over to the shard holds a slot without ever being received)
+		if recvd || (rp.returned && !rp.skipped && rp.start != 0 && !tooMany) {
 			admitted = append(admitted, fmt.Sprint(in.ID("combo:"+comboKey(p.Cfg.MetaKeys, rp.Meta))))
 		}
-		if rp.err != nil && strings.Contains(rp.err.Error(), "too many batcher") {
+		if tooMany {
 			refused = true
 		}
 	}
